@@ -20,9 +20,11 @@ for p in props:
         "evidence_file": "/verif/evidence/%s.json" % pid,
         "replay_cmd_template": "./check %s --replay {path}" % pid,
         "engine": "lean4-proof+correspondence",
-        "level_claimed": {"category": c.get("level", "proof"), "text": c.get("level_text", c.get("explanation", "")), "design_ref": "DESIGN.md §5 " + pid},
+        "level_claimed": {"category": c.get("level", "proof"),
+                          "text": c.get("level_text", c.get("explanation", "")) + ((" NOT FULLY COVERED (guarded / correspondence- or oracle-only / uncovered clauses): " + " | ".join(c["partial"])) if c.get("partial") else ""),
+                          "design_ref": "DESIGN.md §12.1 %s (what was built), §5 %s (the plan)" % (pid, pid)},
         "level_note": "; ".join(c.get("trusted_base", []) + c.get("assumptions", [])),
-        "technique": c.get("technique", "Lean 4 machine-checked proof over a model tied to the code by regenerated definitions (go2lean) and a differential correspondence check"),
+        "technique": c.get("technique", "Lean 4 machine-checked proof over an executable model; tie to the code: definitions regenerated from the Go source (go2lean) where the code is straight-line arithmetic, fact tables re-extracted from the source on every run, and a differential correspondence check (real code vs model on the same op lines) for the hand-written parts"),
     })
 import subprocess
 try:
